@@ -151,6 +151,9 @@ func cmdCheck(args []string) {
 		if fc.AssumeRequires {
 			trusted = append(trusted, "preconditions of "+fc.Key()+" are assumed at its call sites (facts about a dependency's data)")
 		}
+		for _, cn := range fc.AssumeCallee {
+			trusted = append(trusted, "inside "+fc.Key()+" the preconditions of "+cn+" are assumed at its call sites, not proved")
+		}
 		if fc.Trusted {
 			trusted = append(trusted, "trusted contract (assumed at call sites, body not verified): "+fc.Key())
 			continue
